@@ -27,8 +27,9 @@ VARIABLES text,   \* bytes emitted so far
           stack,  \* open containers: [k, st, items, key]
           str,    \* string being emitted: [on, key, acc, n]
           done, val, var,
+          probe,  \* 0, or the nesting depth of a stack-depth probe (the text is then described by run lengths, not stored)
           act     \* ghost: name of the action that produced the state (vacuity is measured on the emitted cases)
-vars == <<text, stack, str, done, val, var, act>>
+vars == <<text, stack, str, done, val, var, probe, act>>
 
 NoStr == [on |-> FALSE, key |-> FALSE, acc |-> <<>>, n |-> 0]
 NoVal == [z |-> 0]
@@ -96,7 +97,7 @@ WsVariants == << <<32>>, <<9>>, <<10>>, <<13>>, <<13,10>> >>
 \* ---- structure ----
 Top == stack[Len(stack)]
 InStr == str.on
-CanValue == /\ ~done /\ ~InStr
+CanValue == /\ ~done /\ ~InStr /\ probe = 0
             /\ IF stack = <<>> THEN TRUE
                ELSE IF Top.k = "a" THEN Top.st \in {"first", "sep"} ELSE Top.st = "afterColon"
 CanKey == /\ ~done /\ ~InStr
@@ -115,42 +116,42 @@ Room == Len(text) < MaxLen
 Budget(c) == var + c <= MaxVar
 Scalars == IF Linear THEN Len(stack) = MaxDepth ELSE TRUE
 
-Init == /\ text = <<>> /\ stack = <<>> /\ str = NoStr /\ done = FALSE /\ val = NoVal /\ var = 0 /\ act = "Init"
+Init == /\ text = <<>> /\ stack = <<>> /\ str = NoStr /\ done = FALSE /\ val = NoVal /\ var = 0 /\ probe = 0 /\ act = "Init"
 
-Number(i) == /\ act' = "Number" /\ CanValue /\ Room /\ Scalars /\ Budget(NumTokens[i].c)
+Number(i) == /\ UNCHANGED probe /\ act' = "Number" /\ CanValue /\ Room /\ Scalars /\ Budget(NumTokens[i].c)
              /\ text' = text \o NumTokens[i].t /\ var' = var + NumTokens[i].c
              /\ Apply(Deliver(stack, [n |-> NumTokens[i].t])) /\ UNCHANGED str
-Literal(i) == /\ act' = "Literal" /\ CanValue /\ Room /\ Scalars /\ Budget(Literals[i].c)
+Literal(i) == /\ UNCHANGED probe /\ act' = "Literal" /\ CanValue /\ Room /\ Scalars /\ Budget(Literals[i].c)
               /\ text' = text \o Literals[i].t /\ var' = var + Literals[i].c
               /\ Apply(Deliver(stack, Literals[i].v)) /\ UNCHANGED str
-BeginStr == /\ act' = "BeginStr" /\ Room /\ (IF CanKey THEN ~Linear ELSE CanValue /\ Scalars)
+BeginStr == /\ UNCHANGED probe /\ act' = "BeginStr" /\ Room /\ (IF CanKey THEN ~Linear ELSE CanValue /\ Scalars)
             /\ text' = Append(text, 34)
             /\ str' = [on |-> TRUE, key |-> CanKey, acc |-> <<>>, n |-> 0]
             /\ UNCHANGED <<stack, done, val, var>>
-StrChar(i) == /\ act' = "StrChar" /\ InStr /\ str.n < MaxStr /\ Budget(StrChars[i].c)
+StrChar(i) == /\ UNCHANGED probe /\ act' = "StrChar" /\ InStr /\ str.n < MaxStr /\ Budget(StrChars[i].c)
               /\ text' = text \o StrChars[i].t /\ var' = var + StrChars[i].c
               /\ str' = [str EXCEPT !.acc = @ \o StrChars[i].v, !.n = @ + 1]
               /\ UNCHANGED <<stack, done, val>>
-EndStr == /\ act' = "EndStr" /\ InStr
+EndStr == /\ UNCHANGED probe /\ act' = "EndStr" /\ InStr
           /\ text' = Append(text, 34) /\ str' = NoStr /\ UNCHANGED var
           /\ IF str.key
              THEN /\ \A j \in 1..Len(Top.items) : Top.items[j][1] # str.acc       \* keys of one object are distinct
                   /\ stack' = [stack EXCEPT ![Len(stack)] = [@ EXCEPT !.st = "key", !.key = str.acc]]
                   /\ UNCHANGED <<done, val>>
              ELSE Apply(Deliver(stack, [s |-> str.acc]))
-Colon == /\ act' = "Colon" /\ ~done /\ ~InStr /\ (IF stack = <<>> THEN FALSE ELSE Top.st = "key")
+Colon == /\ UNCHANGED probe /\ act' = "Colon" /\ ~done /\ ~InStr /\ (IF stack = <<>> THEN FALSE ELSE Top.st = "key")
          /\ text' = Append(text, 58)
          /\ stack' = [stack EXCEPT ![Len(stack)] = [@ EXCEPT !.st = "afterColon"]]
          /\ UNCHANGED <<str, done, val, var>>
-Begin(k) == /\ act' = "Begin" /\ CanValue /\ Room /\ Len(stack) < MaxDepth /\ ~Linear
+Begin(k) == /\ UNCHANGED probe /\ act' = "Begin" /\ CanValue /\ Room /\ Len(stack) < MaxDepth /\ ~Linear
             /\ text' = Append(text, IF k = "a" THEN 91 ELSE 123)
             /\ stack' = Append(stack, [k |-> k, st |-> "first", items |-> <<>>, key |-> <<>>])
             /\ UNCHANGED <<str, done, val, var>>
-End == /\ act' = "End" /\ ~done /\ ~InStr /\ ~Linear /\ (IF stack = <<>> THEN FALSE ELSE Top.st \in {"first", "afterItem"})
+End == /\ UNCHANGED probe /\ act' = "End" /\ ~done /\ ~InStr /\ ~Linear /\ (IF stack = <<>> THEN FALSE ELSE Top.st \in {"first", "afterItem"})
        /\ text' = Append(text, IF Top.k = "a" THEN 93 ELSE 125)
        /\ Apply(Deliver(SubSeq(stack, 1, Len(stack) - 1), IF Top.k = "a" THEN [a |-> Top.items] ELSE [o |-> Top.items]))
        /\ UNCHANGED <<str, var>>
-Comma == /\ act' = "Comma" /\ ~done /\ ~InStr /\ Room
+Comma == /\ UNCHANGED probe /\ act' = "Comma" /\ ~done /\ ~InStr /\ Room
          /\ (IF stack = <<>> THEN FALSE ELSE Top.st = "afterItem" /\ Len(Top.items) < MaxItems)
          /\ text' = Append(text, 44)
          /\ stack' = [stack EXCEPT ![Len(stack)] = [@ EXCEPT !.st = "sep"]]
@@ -169,14 +170,23 @@ CloseN(r, txt, n) ==   \* r = [stack, done, val]
     ELSE LET f == r.stack[Len(r.stack)] IN
          CloseN(Deliver(SubSeq(r.stack, 1, Len(r.stack) - 1), IF f.k = "a" THEN [a |-> f.items] ELSE [o |-> f.items]),
                 Append(txt, IF f.k = "a" THEN 93 ELSE 125), n - 1)
-DeepBegin == /\ act' = "DeepBegin" /\ Linear /\ CanValue /\ Len(stack) < MaxDepth
+DeepBegin == /\ UNCHANGED probe /\ act' = "DeepBegin" /\ Linear /\ CanValue /\ Len(stack) < MaxDepth
              /\ LET o == OpenN(stack, text, Stride) IN stack' = o.stack /\ text' = o.text
              /\ UNCHANGED <<str, done, val, var>>
-DeepEnd == /\ act' = "DeepEnd" /\ Linear /\ ~done /\ ~InStr /\ (IF stack = <<>> THEN FALSE ELSE Top.st = "afterItem" \/ (Top.st = "first" /\ Len(stack) = MaxDepth))
+DeepEnd == /\ UNCHANGED probe /\ act' = "DeepEnd" /\ Linear /\ ~done /\ ~InStr /\ (IF stack = <<>> THEN FALSE ELSE Top.st = "afterItem" \/ (Top.st = "first" /\ Len(stack) = MaxDepth))
            /\ LET c == CloseN([stack |-> stack, done |-> FALSE, val |-> NoVal], text, Stride) IN Apply(c.r) /\ text' = c.text
            /\ UNCHANGED <<str, var>>
+\* Totality beyond the conformance bound: documents nested far deeper than 512 levels (the property demands that
+\* decoding *any* byte string terminates without a memory error).  They are described by run lengths
+\* (unit bytes, count) and expanded by the replayer; no expectation on the result.  Beyond ProbeSafe levels the
+\* recursive destruction of the resulting Var tree is a known hazard of the pinned tree (NestingBeyondStack).
+ProbeDepths == {2000, 5000, 20000, 200000, 1000000}
+ProbeSafe == 5000
+Probe(n, obj) == /\ Linear /\ text = <<>> /\ probe = 0 /\ n \in ProbeDepths
+                 /\ probe' = (IF obj THEN -n ELSE n) /\ act' = "Probe"
+                 /\ UNCHANGED <<text, stack, str, done, val, var>>
 \* insignificant white space: before any token and after the document; at most one variant between two tokens
-Ws(i) == /\ act' = "Ws" /\ ~InStr /\ Budget(1)
+Ws(i) == /\ UNCHANGED probe /\ act' = "Ws" /\ ~InStr /\ Budget(1) /\ probe = 0
          /\ (IF text = <<>> THEN TRUE ELSE text[Len(text)] \notin WS)
          /\ (done \/ Room)
          /\ text' = text \o WsVariants[i] /\ var' = var + 1
@@ -187,6 +197,7 @@ Next == \/ \E i \in 1..Len(NumTokens) : Number(i)
         \/ BeginStr \/ EndStr \/ Colon \/ End \/ Comma
         \/ \E i \in 1..Len(StrChars) : StrChar(i)
         \/ Begin("a") \/ Begin("o") \/ DeepBegin \/ DeepEnd
+        \/ \E n \in ProbeDepths, obj \in BOOLEAN : Probe(n, obj)
         \/ \E i \in 1..Len(WsVariants) : Ws(i)
 Spec == Init /\ [][Next]_vars
 
@@ -217,7 +228,13 @@ Expect(v) ==
     ELSE IF k = "o" THEN [o |-> [i \in 1..Len(v.o) |-> <<v.o[i][1], Expect(v.o[i][2])>>]]
     ELSE IF k = "b" THEN [b |-> IF v.b THEN 1 ELSE 0]
     ELSE v
-View == <<text, stack, str, done, var>>
-Emit == PrintT(ToJson([t |-> text', k |-> IF done' THEN "doc" ELSE IF (stack' # <<>> \/ str'.on) THEN "prefix" ELSE "open",
+View == <<text, stack, str, done, var, probe>>
+Abs(x) == IF x < 0 THEN -x ELSE x
+ProbeCase == [t |-> <<>>, k |-> "any", act |-> act', v |-> [z |-> 0], fin |-> 0,
+              rle |-> IF probe' > 0 THEN << <<(<<91>>), probe'>>, <<(<<93>>), probe'>> >>
+                      ELSE << <<(<<123, 34, 97, 34, 58>>), -probe'>>, <<(<<49>>), 1>>, <<(<<125>>), -probe'>> >>,
+              hz |-> IF Abs(probe') > ProbeSafe THEN {"NestingBeyondStack"} ELSE {}]
+Emit == IF probe' # 0 THEN PrintT(ToJson(ProbeCase)) ELSE
+        PrintT(ToJson([t |-> text', k |-> IF done' THEN "doc" ELSE IF (stack' # <<>> \/ str'.on) THEN "prefix" ELSE "open",
                        act |-> act', v |-> Expect(val'), fin |-> IF done' THEN Doc(text').p - 1 ELSE 0]))
 ===============================================================================
